@@ -685,6 +685,21 @@ class Session:
             o = self.names.get(op[1])
             if o is None or o._p_jar is not None:
                 return
+            seen, todo = set(), [o]
+            while todo:                       # only if it refers to nothing that belongs to a connection already
+                x = todo.pop()                # (a refused commit of an added object is C11's subject)
+                if id(x) in seen:
+                    continue
+                seen.add(id(x))
+                if x is not o and (isinstance(x, WeakRef) or x._p_jar is not None):
+                    return
+
+                def leaf(y):
+                    todo.append(y)
+                    return ['*']
+                tr_value(x.__getstate__(), leaf, {})
+                if hasattr(type(x), '__getnewargs__'):
+                    tr_value(x.__getnewargs__(), leaf, {})
             tm2 = transaction.TransactionManager()
             c = self.dbs[0].open(transaction_manager=tm2)
             try:
